@@ -94,7 +94,7 @@ pub fn run(tier: Tier) -> i32 {
     let run = Run::new("C09", tier);
     let th = tier.thorough();
     // S1: every value with |c| <= N at every scale (non-normalised c included: the family then starts from that representation)
-    let n: i128 = if th { 3_000_000 } else { 20_000 };
+    let n: i128 = if th { 3_000_000 } else { 250_000 };
     let small: Vec<i128> = (-n..=n).collect();
     run.par_for(&small, || {}, |&c, l| { for s in 0..=18u8 { value_case(c, s, l); } });
     run.stage("S1 small scope", json!({"|c|<=": n, "scales": 19, "representations": "0..=18-s trailing zeros"}));
